@@ -63,6 +63,9 @@ func (s *_watchSession) done() <-chan struct{} {
 }
 
 func (s *_watchSession) stop() {
+	// cancel first: run() may still be blocked connecting, in which case
+	// nobody is receiving shutdown requests yet
+	s.cancel()
 	s.lc.ShutdownAsync(nil)
 }
 
